@@ -5,16 +5,35 @@
  * describes the LP AFTER the modification (the hooks are called by SPxSolverBase::doRemoveRow/... after the LP changed). */
 #include "verif.h"
 extern "C" {
-   extern int* gp_rs; extern int* gp_cs; extern int* gp_bid; extern const void** gp_mat; extern int* gp_perm;
-   extern int g_js, g_gone;
+   extern int* gp_rs; extern int* gp_cs; extern int* gp_bid; extern const void** gp_mat;
+   extern int* gp_status; extern bool* gp_setup; extern bool* gp_fact; extern int* gp_loadcalls;
+   extern int g_js, g_gone, g_x, g_p, g_newn;
    extern int o_status, o_setup, o_fact, o_rsize, o_csize, o_bsize, o_msize, o_loadcalls;
 }
 #ifdef UNIQUE_GONE_ID
 /* TYPE INVARIANT of theBaseId (listed under "trusted"): basis ids are pairwise distinct, so the id of the removed
  * row/column occurs at most once - at the ghost slot g_js.  Instantiated at every baseId() access. */
-#define BASEID_READ_HOOK(data, n) __CPROVER_assume((n) == g_js || !((data)[n].info * GONE_SIGN > 0 && (data)[n].idx == g_gone))
+#define BASEID_READ_HOOK(data, n) __CPROVER_assume((n) == g_js || (data)[n].code != g_gone)
 #endif
 #include "basis_change_stubs.h"
+
+/* `const int perm[]` of removedRows / removedCols.  The slice only indexes it; the view adds the bounds assertion and
+ * (PERM_INVARIANT) the TYPE INVARIANT of a permutation produced by DataSet::remove(int perm[]) (perm[k] = j++ for the
+ * survivors, see units/dataset): a survivor's new number is the number of survivors in front of it, hence < the new
+ * size, <= k, and strictly increasing along the survivors - instantiated at (k, ghost index g_x with g_p == perm[g_x]). */
+struct PermView
+{
+   const int* p; int n;
+   int operator[](int k) const
+   {
+      __CPROVER_assert(0 <= k && k < n, "perm index in bounds");
+#ifdef PERM_INVARIANT
+      __CPROVER_assume(p[k] < g_newn && p[k] <= k);
+      __CPROVER_assume(!(p[k] >= 0 && g_p >= 0) || (((k < g_x) == (p[k] < g_p)) && ((k > g_x) == (p[k] > g_p))));
+#endif
+      return p[k];
+   }
+};
 typedef SPxSolverBase<double> Solver;
 typedef SPxBasisBase<double> Basis;
 typedef SPxBasisBase<double>::Desc::Status DS;
@@ -31,7 +50,7 @@ static inline void init(HH& b, Solver& lp, int rep, int nr, int nc, double* lhs,
 {
    lp.left.val = lhs; lp.left.dimen = nr; lp.right.val = rhs; lp.right.dimen = nr;
    lp.low.val = lower; lp.low.dimen = nc; lp.up.val = upper; lp.up.dimen = nc; lp.objc.val = obj; lp.objc.dimen = nc;
-   lp.rowKey = rowkey; lp.colKey = colkey; lp.goneRow = -1; lp.goneCol = -1;
+   lp.rowKey = rowkey; lp.colKey = colkey; lp.goneRow = 0; lp.goneCol = 0;
    lp.theRep = rep > 0 ? SPxSolverBase<double>::COLUMN : SPxSolverBase<double>::ROW;
    lp.coset.s = &lp; lp.thecovectors = &lp.coset; lp.somevec.unused = 0;
    b.theLP = &lp;
@@ -46,6 +65,7 @@ static inline void init(HH& b, Solver& lp, int rep, int nr, int nc, double* lhs,
    b.thestatus = (SPxBasisBase<double>::SPxStatus)bstatus;
    b.loadMatrixVecs_calls = 0;
    gp_rs = rowstat; gp_cs = colstat; gp_bid = bid; gp_mat = (const void**)mat;
+   gp_status = (int*)&b.thestatus; gp_setup = &b.matrixIsSetup; gp_fact = &b.factorized; gp_loadcalls = &b.loadMatrixVecs_calls;
 }
 template <class HH>
 static inline void finish(HH& b)
@@ -75,6 +95,133 @@ extern "C" void w_removedRow(int i, int rep, int nr, int nc, int* rowstat, int* 
    init(b, lp, rep, nr, nc, 0, 0, 0, 0, 0, 0, 0, rowstat, nr + 1, nr + 1, colstat, nc, nc, bid, bsize, bsize, mat, bstatus, setup, fact);
    lp.goneRow = gone;
    b.i = i;
+   b.body();
+   finish(b);
+}
+#endif
+
+#if defined(INST_removedCol)
+struct H : SPxBasisBase<double>
+{
+   int i;
+   void body()
+   {
+#include "Basis_removedCol.inc"
+   }
+};
+/* LP after the removal: nr rows, nc columns.  Basis before the hook: descriptor nr x (nc+1), bsize basis ids. */
+extern "C" void w_removedCol(int i, int rep, int nr, int nc, int* rowstat, int* colstat, int* bid, int bsize, int bstatus, int setup, int fact, int gone)
+{
+   VIN("i", i); VIN("rep", rep); VIN("nr", nr); VIN("nc", nc); VIN("bsize", bsize); VIN("bstatus", bstatus); VIN("setup", setup); VIN("fact", fact);
+   VIN_ARR8("rowstat", rowstat, nr); VIN_ARR8("colstat", colstat, nc + 1);
+   basis_change_force_ctors();
+   const SVectorBase<double>* mat[MATCAP];
+   Solver lp; H b;
+   init(b, lp, rep, nr, nc, 0, 0, 0, 0, 0, 0, 0, rowstat, nr, nr, colstat, nc + 1, nc + 1, bid, bsize, bsize, mat, bstatus, setup, fact);
+   lp.goneCol = gone;
+   b.i = i;
+   b.body();
+   finish(b);
+}
+#endif
+
+#if defined(INST_removedRows) || defined(INST_removedCols)
+struct H : SPxBasisBase<double>
+{
+   PermView perm;
+   void body()
+   {
+#ifdef INST_removedRows
+#include "Basis_removedRows.inc"
+#else
+#include "Basis_removedCols.inc"
+#endif
+   }
+};
+/* LP after the removal: nr rows, nc columns.  Basis before the hook: descriptor rsize x csize (rsize >= nr, csize >= nc);
+ * perm has rsize (removedRows) resp. csize (removedCols) entries.  The id array is only resized. */
+extern "C" void w_removedMany(int* perm, int rep, int nr, int nc, int* rowstat, int rsize, int* colstat, int csize, int bsize, int bstatus, int setup, int fact)
+{
+   VIN("rep", rep); VIN("nr", nr); VIN("nc", nc); VIN("rsize", rsize); VIN("csize", csize); VIN("bsize", bsize); VIN("bstatus", bstatus); VIN("setup", setup); VIN("fact", fact);
+   VIN_ARR8("rowstat", rowstat, rsize); VIN_ARR8("colstat", colstat, csize);
+#ifdef INST_removedRows
+   VIN_ARR8("perm", perm, rsize);
+#else
+   VIN_ARR8("perm", perm, csize);
+#endif
+   basis_change_force_ctors();
+   const SVectorBase<double>* mat[MATCAP];
+   Solver lp; H b;
+   init(b, lp, rep, nr, nc, 0, 0, 0, 0, 0, 0, 0, rowstat, rsize, rsize, colstat, csize, csize, 0, bsize, bsize, mat, bstatus, setup, fact);
+   b.perm.p = perm;
+#ifdef INST_removedRows
+   b.perm.n = rsize;
+#else
+   b.perm.n = csize;
+#endif
+   b.body();
+   finish(b);
+}
+#endif
+
+#if defined(INST_addedRows) || defined(INST_addedCols)
+struct H : SPxBasisBase<double>
+{
+   int n;
+   void body()
+   {
+#ifdef INST_addedRows
+#include "Basis_addedRows.inc"
+#else
+#include "Basis_addedCols.inc"
+#endif
+   }
+};
+/* LP after the addition: nr rows, nc columns (the last n rows resp. columns are new).  Basis before the hook: descriptor
+ * rsize x csize, bsize basis ids; the wrapper's arrays have room for the new dimensions (nr, nc, bmax). */
+extern "C" void w_added(int n, int rep, int nr, int nc, double* lhs, double* rhs, double* lower, double* upper, double* obj, int* rowkey, int* colkey,
+                        int* rowstat, int rsize, int* colstat, int csize, int* bid, int bsize, int bmax, int bstatus, int setup, int fact)
+{
+   VIN("n", n); VIN("rep", rep); VIN("nr", nr); VIN("nc", nc); VIN("rsize", rsize); VIN("csize", csize); VIN("bsize", bsize); VIN("bstatus", bstatus); VIN("setup", setup); VIN("fact", fact);
+   VIN_ARR8("rowstat", rowstat, rsize); VIN_ARR8("colstat", colstat, csize);
+   basis_change_force_ctors();
+   const SVectorBase<double>* mat[MATCAP];
+   Solver lp; H b;
+   init(b, lp, rep, nr, nc, lhs, rhs, lower, upper, obj, rowkey, colkey, rowstat, rsize, nr, colstat, csize, nc, bid, bsize, bmax, mat, bstatus, setup, fact);
+   b.n = n;
+   b.body();
+   finish(b);
+}
+#endif
+
+#if defined(INST_changedRow) || defined(INST_changedCol) || defined(INST_changedElement)
+struct H : SPxBasisBase<double>
+{
+   void restoreInitialBasis()
+   {
+#include "Basis_restoreInitialBasis.inc"
+   }
+   void body()
+   {
+#if defined(INST_changedRow)
+#include "Basis_changedRow.inc"
+#elif defined(INST_changedCol)
+#include "Basis_changedCol.inc"
+#else
+#include "Basis_changedElement.inc"
+#endif
+   }
+};
+/* the LP kept its dimensions; the hooks' parameters (row / column numbers) are unnamed and unused in the tree */
+extern "C" void w_changed(int rep, int nr, int nc, double* lhs, double* rhs, double* lower, double* upper, double* obj, int* rowkey, int* colkey,
+                          int* rowstat, int* colstat, int* bid, int bsize, int bstatus, int setup, int fact)
+{
+   VIN("rep", rep); VIN("nr", nr); VIN("nc", nc); VIN("bsize", bsize); VIN("bstatus", bstatus); VIN("setup", setup); VIN("fact", fact);
+   VIN_ARR8("rowstat", rowstat, nr); VIN_ARR8("colstat", colstat, nc);
+   basis_change_force_ctors();
+   const SVectorBase<double>* mat[MATCAP];
+   Solver lp; H b;
+   init(b, lp, rep, nr, nc, lhs, rhs, lower, upper, obj, rowkey, colkey, rowstat, nr, nr, colstat, nc, nc, bid, bsize, bsize, mat, bstatus, setup, fact);
    b.body();
    finish(b);
 }
